@@ -582,6 +582,59 @@ def make_lib(backend, fn_name, kdt):
     return run
 
 
+def lib_slice_run(carve):
+    """window functions after arrange >> slice_head >> alias() see exactly the sliced rows - also when the window function is
+    nested inside another expression (native, Python oracle, both backends)"""
+    import warnings
+
+    import polars as pl
+    import sqlalchemy as sqa
+
+    from .c13 import _enum_outcome
+
+    pdt = H.pdt
+    vals = [5, 3, 9, 1, 7, 2, 8, 4, 6, 0]
+    df = pl.DataFrame({"h": list(range(10)), "v": vals})
+    eng = sqa.create_engine("sqlite://")
+    df.write_database("t", eng)
+    kept = list(range(2, 8))  # rows h = 2..7 after arrange(h) >> slice_head(6, offset=2)
+    kv = [vals[h] for h in kept]
+    order = sorted(range(len(kept)), key=lambda i: kv[i])  # window order: by v ascending
+    rn = {kept[i]: r + 1 for r, i in enumerate(order)}
+    sh = {kept[i]: (kv[order[r - 1]] if r >= 1 else None) for r, i in enumerate(order)}
+    want = {
+        "row_number": [rn[h] for h in kept], "row_number*10": [rn[h] * 10 for h in kept], "shift": [sh[h] for h in kept], "shift.fill_null(-1)": [sh[h] if sh[h] is not None else -1 for h in kept],
+        "v - v.sum()": [vals[h] - sum(kv) for h in kept], "when(rn<=2)": [1 if rn[h] <= 2 else 0 for h in kept], "count()": [len(kept)] * len(kept),
+    }
+    n, bad = 0, []
+    with warnings.catch_warnings():
+        warnings.simplefilter("ignore")
+        for be, t in (("polars", pdt.Table(df, name="t")), ("sqlite", pdt.Table("t", pdt.SqlAlchemy(eng)))):
+            for with_alias in (True, False):
+                base = t >> pdt.arrange(t.h) >> pdt.slice_head(6, offset=2)
+                if with_alias:
+                    base = base >> pdt.alias("s")
+                x = base
+                exprs = {
+                    "row_number": lambda: pdt.row_number(arrange=x.v), "row_number*10": lambda: pdt.row_number(arrange=x.v) * 10, "shift": lambda: x.v.shift(1, arrange=x.v), "shift.fill_null(-1)": lambda: x.v.shift(1, arrange=x.v).fill_null(-1),
+                    "v - v.sum()": lambda: x.v - x.v.sum(), "when(rn<=2)": lambda: pdt.when(pdt.row_number(arrange=x.v) <= 2).then(1).otherwise(0), "count()": lambda: pdt.count() + 0,
+                }
+                for name, mk in exprs.items():
+                    n += 1
+                    lab = f"[{be}] arrange(h) >> slice_head(6, offset=2){' >> alias()' if with_alias else ''} >> mutate(r={name})"
+                    try:
+                        out = x >> pdt.mutate(r=mk()) >> pdt.export(pdt.Polars())
+                    except (pdt.errors.SubqueryError, pdt.errors.NotSupportedError):
+                        continue
+                    except Exception as ex:  # noqa: BLE001
+                        bad.append(f"{lab}: raises {type(ex).__name__}: {str(ex)[:120]}")
+                        continue
+                    got = {r[0]: r[2] for r in out.rows()}
+                    if sorted(got) != kept or [got[h] for h in kept] != want[name]:
+                        bad.append(f"{lab}: rows {sorted(got)} values {[got.get(h) for h in kept]}; the window over the sliced rows {kept} gives {want[name]}")
+    return _enum_outcome("window functions after slice_head (with and without alias) are computed over the sliced rows only, also when nested in another expression", n, bad)
+
+
 def obligations(tier):
     fi = H.fn_info
     PB, SB = H.polars_backend, H.sql_backend
@@ -620,6 +673,9 @@ def obligations(tier):
     for backend in ("polars", "sqlite"):
         f = H.impl_function({"polars": PB.PolarsImpl, "sqlite": H.sqlite_backend.SqliteImpl}[backend], ops.shift, (Int64(), H.types_mod.Const(Int64()), H.types_mod.Const(Int64())))
         obs.append(Obligation(f"C05/W6/shift/{backend}", "W6", "shift(n) reads the row n positions earlier for every (symbolic) n", make_shift_run(backend), functions=[fi(f)] if f else []))
+        if backend == "polars":
+            obs.append(Obligation("C05/LIB/after_slice", "LIB", "window functions after slice_head see the sliced rows (also nested in other expressions)", lib_slice_run, functions=[fi(H.pdt._internal.pipe.cache.Cache.requires_subquery), fi(SB.SqlImpl.compile_ast)],
+                                  bounded="7 window expressions (3 nested) x with / without alias x 2 backends on one 10-row table", tags=("cross_backend",)))
         for fn_name in ("row_number", "rank", "dense_rank", "shift", "shift_neg", "cum_sum"):
             for kdt in ("int", "str", "float"):
                 obs.append(Obligation(f"C05/LIB/{fn_name}/{backend}/{kdt}", "LIB", f"{fn_name} on {backend}: Python oracle of the documented window semantics vs the real engine", make_lib(backend, fn_name, kdt),
